@@ -8,6 +8,7 @@ use super::{
 };
 
 pub use super::deltas::verif_hooks::interpolate_deltas_fixed;
+pub use super::deltas::verif_hooks::{composite_glyph_deltas_fixed, simple_glyph_deltas_fixed};
 pub use super::hint::verif_hooks::hint_arith;
 pub use super::hint::verif_hooks::hint_round_ops;
 
